@@ -202,7 +202,7 @@ fn c14_ports<S: Sch>(rep: &mut Report, step: usize) {
 
 fn ip_alphabet() -> (Vec<Ipv4Addr>, Vec<Ipv6Addr>) {
     let vals = [0u8, 1, 127, 128, 255];
-    let mut v4 = vec![Ipv4Addr::new(0, 0, 0, 0), Ipv4Addr::new(255, 255, 255, 255)];
+    let mut v4 = vec![Ipv4Addr::new(0, 0, 0, 0), Ipv4Addr::new(255, 255, 255, 255), Ipv4Addr::LOCALHOST, Ipv4Addr::new(0, 0, 0, 1), Ipv4Addr::new(224, 0, 0, 1), Ipv4Addr::new(169, 254, 0, 1)];
     for pos in 0..4 {
         for x in vals {
             let mut a = [10u8, 20, 30, 40];
@@ -210,7 +210,21 @@ fn ip_alphabet() -> (Vec<Ipv4Addr>, Vec<Ipv6Addr>) {
             v4.push(Ipv4Addr::from(a));
         }
     }
-    let mut v6 = vec![Ipv6Addr::from([0u8; 16]), Ipv6Addr::from([0xffu8; 16])];
+    let mut v6 = vec![
+        Ipv6Addr::from([0u8; 16]),
+        Ipv6Addr::from([0xffu8; 16]),
+        Ipv6Addr::LOCALHOST,
+        // IPv4-mapped and IPv4-compatible addresses are IPv6 addresses: they belong under ip6
+        Ipv4Addr::new(192, 0, 2, 1).to_ipv6_mapped(),
+        Ipv4Addr::new(0, 0, 0, 0).to_ipv6_mapped(),
+        Ipv4Addr::new(192, 0, 2, 1).to_ipv6_compatible(),
+        // 6to4, Teredo, link-local, multicast, documentation prefixes
+        Ipv6Addr::new(0x2002, 0xc000, 0x0201, 0, 0, 0, 0, 1),
+        Ipv6Addr::new(0x2001, 0, 0x4136, 0xe378, 0x8000, 0x63bf, 0x3fff, 0xfdd2),
+        Ipv6Addr::new(0xfe80, 0, 0, 0, 0, 0, 0, 1),
+        Ipv6Addr::new(0xff02, 0, 0, 0, 0, 0, 0, 1),
+        Ipv6Addr::new(0x64, 0xff9b, 0, 0, 0, 0, 0xc000, 0x0201),
+    ];
     for pos in 0..16 {
         for x in vals {
             let mut a = [0x20u8, 0x01, 0x0d, 0xb8, 5, 6, 7, 8, 9, 10, 11, 12, 13, 14, 15, 16];
@@ -263,6 +277,14 @@ fn c14_addresses<S: Sch>(rep: &mut Report) {
             real::guard(|| {
                 let mut e = base.clone();
                 e.set_udp_socket(SocketAddr::new(*a, 30303), &key).map(|_| e).map_err(|e| e.to_string())
+            })
+            .and_then(|r| r),
+        ));
+        recs.push((
+            "set_tcp_socket",
+            real::guard(|| {
+                let mut e = base.clone();
+                e.set_tcp_socket(SocketAddr::new(*a, 0), &key).map(|_| e).map_err(|e| e.to_string())
             })
             .and_then(|r| r),
         ));
@@ -595,11 +617,16 @@ pub fn run_c16(tier: Tier, rep: &mut Report) {
     let good = &digits[..64];
     for pfx in ["", "0x"] {
         for i in 0..64 {
-            for bad_c in ["g", "G", "x", " ", "-", "\\u0000", "é"] {
+            // every 7-bit character that is not a hex digit, and two multi-byte characters
+            let mut repl: Vec<String> = (0u8..0x80).filter(|c| !(*c as char).is_ascii_hexdigit()).map(|c| (c as char).to_string()).collect();
+            repl.push("é".into());
+            repl.push("０".into());
+            for bad_c in repl {
                 n += 1;
                 let s = format!("{pfx}{}{}{}", &good[..i], bad_c, &good[i + 1..]);
-                if serde_json::from_str::<NodeId>(&format!("\"{s}\"")).is_ok() {
-                    bad("deserialisation accepts a non-hex character", s.clone(), json!({"engine":"value","text":s}));
+                let js = serde_json::to_string(&s).unwrap();
+                if serde_json::from_str::<NodeId>(&js).is_ok() {
+                    bad("deserialisation accepts a non-hex character", format!("{s:?}"), json!({"engine":"value","text":s}));
                 }
             }
             n += 2;
